@@ -1,9 +1,11 @@
-use crate::solvers::common::{DisplayValue, LpSolution, SolverError, format_float};
+use crate::solvers::common::{
+    DisplayValue, LpSolution, SolutionStatus, SolverError, format_float,
+};
 use crate::transformers::LinearModel;
 use crate::{
     Assignment, Comparison, OptimizationType, VariableType, make_constraints_map_from_assignment,
 };
-use microlp::{ComparisonOp, Error, OptimizationDirection, Problem, SolveOptions};
+use microlp::{ComparisonOp, Error, OptimizationDirection, Problem, SolveOptions, Status};
 use serde::{Deserialize, Serialize};
 use std::fmt::{Display, Formatter};
 use std::time::Duration;
@@ -195,6 +197,15 @@ pub fn solve_milp_lp_problem_with(
 
     match problem.solve_with(solve_options) {
         Ok(s) => {
+            // hitting a limit is not an error for MicroLP: the status says
+            // whether the values are a solution at all
+            let status = match s.status() {
+                Status::Optimal => SolutionStatus::Optimal,
+                Status::Feasible => SolutionStatus::Feasible,
+                // no feasible point is known yet, the values are only the
+                // working point of the interrupted search
+                Status::Interrupted => return Err(SolverError::LimitReached),
+            };
             let value_of = |index: usize| {
                 let positive = s.var_value(microlp_vars[index]);
                 match negative_parts[index] {
@@ -227,7 +238,8 @@ pub fn solve_milp_lp_problem_with(
                 assignment,
                 s.objective() + lp.objective_offset(),
                 constraints,
-            ))
+            )
+            .with_status(status))
         }
         Err(e) => Err(match e {
             Error::InternalError(s) => SolverError::Other(s),
